@@ -56,10 +56,18 @@ CALL_GUARD_S = 5.0
 
 
 class _Null:
-    """Stream handed to the four print helpers."""
+    """Stream handed to the print helpers; what is written to it is part of the call's output."""
+
+    def __init__(self):
+        self.buf = []
 
     def write(self, s):
+        if len(self.buf) < 4096:
+            self.buf.append(str(s))
         return len(s)
+
+    def text(self):
+        return ''.join(self.buf)[:65536]
 
     def flush(self):
         pass
@@ -185,6 +193,10 @@ class World:
         """-> ('ok', result) | ('raise', exception)"""
         old = sys.stdout
         sys.stdout = _NULL_OUT
+        streams = [_NULL_OUT] + [v for v in list(args) + list(kwargs.values()) if isinstance(v, _Null)]
+        for st in streams:
+            st.buf = []
+        self._written = ''
         signal.signal(signal.SIGALRM, _on_alarm)
         signal.setitimer(signal.ITIMER_REAL, CALL_GUARD_S)
         self._gchange = None
@@ -215,6 +227,7 @@ class World:
         finally:
             signal.setitimer(signal.ITIMER_REAL, 0)
             sys.stdout = old
+            self._written = '\x00'.join(st.text() for st in streams)
 
     def _callable(self, rec, recv):
         how, target, name = rec['how'], rec['target'], rec['name']
@@ -395,6 +408,9 @@ class World:
         if outcome == 'ok':
             rsnap = values.snapshot(res)
             out['res'] = values.structure(rsnap)
+            if self._written.strip('\x00'):
+                rsnap = ('with_output', rsnap, ('lit', 'str', self._written))
+                self.probe('p_call_wrote_text')
             self._note_aliasing(res, argvals)
             if rec.get('push'):
                 self._push_result(res)
@@ -488,6 +504,8 @@ class World:
                       first_step=ent['step'], on_copies=bool(use_copy and inp is not ent['inputs']))
         if outcome == 'ok':
             rs = values.snapshot(res)
+            if self._written.strip('\x00'):
+                rs = ('with_output', rs, ('lit', 'str', self._written))
             if rs != ent['rsnap'] and not values.approx_equal(rs, ent['rsnap']):
                 self.fail(oracle, call=rec['key'], first_step=ent['step'],
                           where=values.diff_path(ent['rsnap'], rs),
@@ -711,6 +729,8 @@ def make_spec(kind, world, cfg, rng, recv_cls, recv_ref=None):
         return {'lit': rng.choice([1e-9, 1e-6])}
     if kind == 'stream':
         return {'special': 'stream'}
+    if kind == 'fmt':
+        return {'lit': rng.choice(['{:8.2g}', '{:.3f}', '{:10.4f}'])}
     if kind == 'idx':
         return {'lit': rng.choice([0, 0, 1, -1, 2, -2, 5])}
     if kind == 'slice':
